@@ -81,7 +81,14 @@ func bigToWordString(v *big.Int) string {
 }
 
 func genThresholds(t *rapid.T) [3]int {
-	switch rapid.IntRange(0, 5).Draw(t, "thr.cls") {
+	switch rapid.IntRange(0, 7).Draw(t, "thr.cls") {
+	case 6:
+		// schoolbook squaring (decBasicSqr) at every length, Karatsuba squaring off: the configuration a calibration
+		// run uses as its reference
+		return [3]int{30, rapid.IntRange(1, 30).Draw(t, "thr.bs2"), 1 << 30}
+	case 7:
+		// squaring thresholds over the whole range the calibration code tries (30..300)
+		return [3]int{rapid.IntRange(2, 40).Draw(t, "thr.k3"), rapid.IntRange(1, 80).Draw(t, "thr.bs3"), rapid.IntRange(30, 320).Draw(t, "thr.ks3")}
 	case 0:
 		return [3]int{30, 10, 50} // shipped defaults
 	case 1:
@@ -416,7 +423,7 @@ func checkC06(c C06Case, o *h.Obs) *h.Fail {
 	return nil
 }
 
-const ruleC06 = "rapid-generated (kind, operands as base-10^19 word vectors, threshold assignment): lengths 1..300 (quick) / 1..1000 (thorough) words, balanced and unbalanced, words drawn in runs from {0, 10^19-1, 5*10^18, 5*10^18-1, 10^k, 10^k-1, small, 1, near-max, uniform}; dividends built as q*v+r with r in {0, 1, v-1, random}, divisor top words at the normalisation boundaries, divisor lengths on both sides of the recursive-division threshold (100); thresholds per case: shipped, schoolbook-only, recurse-to-the-bottom, or Karatsuba 2..40 / basicSqr 1..30 / karatsubaSqr 2..60. Oracle: math/big Int.Mul and Int.QuoRem on the same numbers (q*v+r==u and 0<=r<v follow), results normalized with all words < 10^19, identical under the drawn and the shipped thresholds, operands unmodified; then the same operands through Mul / Mul(x,x) / Quo, and x times ceil(10^k / x) at precisions 1, 20 and 39 (a product one hair above a round number) (value and exact-vs-inexact accuracy against the reference model; the four quotients of a case go into one receiver that first held a longer all-nines value, so that its buffer is reused and dirty). Non-trivial = both operands >= 2 words. The add-back branch of divBasic is counted by the hook build (measured.divBasic_addback_hits)."
+const ruleC06 = "rapid-generated (kind, operands as base-10^19 word vectors, threshold assignment): lengths 1..300 (quick) / 1..1000 (thorough) words, balanced and unbalanced, words drawn in runs from {0, 10^19-1, 5*10^18, 5*10^18-1, 10^k, 10^k-1, small, 1, near-max, uniform}; dividends built as q*v+r with r in {0, 1, v-1, random}, divisor top words at the normalisation boundaries, divisor lengths on both sides of the recursive-division threshold (100); thresholds per case: shipped, schoolbook-only, recurse-to-the-bottom, Karatsuba 2..40 / basicSqr 1..30 / karatsubaSqr 2..60, Karatsuba squaring off with schoolbook squaring on, or squaring thresholds over the calibration range (basicSqr 1..80, karatsubaSqr 30..320). Oracle: math/big Int.Mul and Int.QuoRem on the same numbers (q*v+r==u and 0<=r<v follow), results normalized with all words < 10^19, identical under the drawn and the shipped thresholds, operands unmodified; then the same operands through Mul / Mul(x,x) / Quo, and x times ceil(10^k / x) at precisions 1, 20 and 39 (a product one hair above a round number) (value and exact-vs-inexact accuracy against the reference model; the four quotients of a case go into one receiver that first held a longer all-nines value, so that its buffer is reused and dirty). Non-trivial = both operands >= 2 words. The add-back branch of divBasic is counted by the hook build (measured.divBasic_addback_hits)."
 
 var propC06 = &h.Prop[C06Case]{ID: "C06", Rule: ruleC06, Gen: genC06, Check: checkC06, Matchers: map[string]func(C06Case) bool{}}
 
